@@ -226,9 +226,9 @@ common::register! {
     q_sdes_1x0 = sdes_1x0 => 2,
     q_sdes_1x1 = sdes_1x1 => 2,
     q_sdes_1x2 = sdes_1x2 => 3,
-    q_sdes_2x1 = sdes_2x1 => 3,
-    q_sdes_val_255 = sdes_val_255 => 2,
-    q_sdes_priv_254 = sdes_priv_254 => 2,
+    t_sdes_2x1 = sdes_2x1 => 3,
+    t_sdes_val_255 = sdes_val_255 => 2,
+    t_sdes_priv_254 = sdes_priv_254 => 2,
     q_pfb_pli = pfb_pli => 2,
     q_pfb_sli_1 = pfb_sli_1 => 2,
     q_pfb_sli_3 = pfb_sli_3 => 4,
@@ -257,7 +257,7 @@ common::register! {
 
 common::register_hashmap! {
     q_pfb_fir_1 = pfb_fir::<_, true> => 4,
-    q_pfb_fir_fixed = pfb_fir::<_, false> => 6,
+    t_pfb_fir_fixed = pfb_fir::<_, false> => 6,
 }
 
 #[cfg(not(kani))]
